@@ -1,4 +1,5 @@
 import Grexv.Lemmas.ColorStrip2
+import Grexv.Lemmas.ColorVerbose
 
 /-!
 # C15 — syntax highlighting only adds colour codes
@@ -44,7 +45,8 @@ those the class printer escapes, so text can never complete `ESC [` on its own -
 theorem bracket_always_escaped : Gen.charsToEscape.contains 91 = true ∧ Gen.classEscapeChars.contains 91 = true := by decide
 
 /-- the relation between highlighted and plain text that the printer maintains: the highlighted text is the plain
-text with complete SGR sequences inserted, and no `ESC` of the plain text is directly followed by `[` -/
+text with some stretches painted — put between an opening SGR sequence and the reset; a painted stretch is not empty and
+contains no line break — and no `ESC` of the plain text is directly followed by `[` -/
 theorem stripping_removes_inserted_codes {C T : Str} (h : Col C T) (fuel : Nat) (hf : C.length ≤ fuel) :
     stripColor fuel C = T := h.strip fuel hf
 
@@ -77,6 +79,41 @@ theorem output_strips_to_plain (cfg : Config) (hv : cfg.verb = false) (env : Env
   injection hT with hT
   subst hT
   exact Grexv.strip_colored cfg hv _ _ (Nat.le_refl _)
+
+/-- **C15 in verbose mode (whole pattern)** for every expression and every combination of the other settings, provided the
+verbose text without highlighting contains no `ESC` character (the printer does not escape U+001B; see `strip_colored_verbose_partial`
+below for what is missing): removing the SGR sequences from the highlighted verbose text yields exactly the verbose text without
+highlighting — the same lines, the same indentation (`indent_regexp` computes the nesting level from each line with the codes
+removed, and skips empty lines: a painted stretch is never empty and never spans a line break, so no line consists of codes only) -/
+theorem strip_colored_verbose_partial (cfg : Config) (hv : cfg.verb = true) (e : Expr)
+    (h27 : 27 ∉ fmtRegExp (withColor cfg false) e) (fuel : Nat)
+    (hf : (fmtRegExp (withColor cfg true) e).length ≤ fuel) :
+    stripColor fuel (fmtRegExp (withColor cfg true) e) = fmtRegExp (withColor cfg false) e :=
+  Grexv.strip_colored_verbose cfg hv e h27 fuel hf
+
+/-- the full statement would drop the hypothesis `h27`.  What is missing: when the plain verbose text contains `ESC [ 0 m` or
+`ESC [ d ; d m` (an `ESC` of a test case followed by a character class such as `[0m]`), `indent_regexp` without highlighting computes
+its nesting levels from lines with that stretch removed while the highlighted run does not, and showing that this never changes a
+level needs the fact that a raw `(`, `)`, `^`, `$` only ever starts a line.  The inputs excluded are compared per input. -/
+theorem output_strips_to_plain_verbose_partial (cfg : Config) (hv : cfg.verb = true) (env : Env) (ws : List Str) (stT stF : Stages)
+    (hT : regExpFrom (withColor cfg true) env ws = .ok stT) (hF : regExpFrom (withColor cfg false) env ws = .ok stF)
+    (h27 : 27 ∉ fmtRegExp (withColor cfg false) stF.finalAst) :
+    stripColor ((fmtRegExp (withColor cfg true) stT.finalAst).length) (fmtRegExp (withColor cfg true) stT.finalAst) =
+      fmtRegExp (withColor cfg false) stF.finalAst := by
+  rw [regExpFrom_color, hF] at hT
+  injection hT with hT
+  subst hT
+  exact Grexv.strip_colored_verbose cfg hv _ h27 _ (Nat.le_refl _)
+
+/-- the hypotheses are satisfiable: the verbose text of `[ab]` contains no `ESC` -/
+example : ({ verb := true } : Config).verb = true ∧ 27 ∉ fmtRegExp (withColor { verb := true } false) (.cls [97, 98]) := by
+  refine ⟨rfl, ?_⟩
+  simp only [fmtRegExp, bodyText, fmtExpr]
+  decide +kernel
+
+/-- the painted stretches of the printer are fixed strings, digits of a count, or shorthand-class names: none is empty, none contains
+a line break -/
+theorem painted_texts_ok : ∀ v ∈ Gen.charClasses, okText v = true := Comp.charClasses_ok
 
 /-! non-vacuity: a coloured caret strips to the caret -/
 example : stripColor 40 (Comp.caret true false) = [94] := by decide +kernel
